@@ -77,3 +77,59 @@ PROPS["C19"] = {
     ],
     "explanation": "loadMd is proved, for all rune sequences with bare fences, to keep the length, blank fences and prose (keeping newlines) and keep code runes at identical indices; hence line and rune column of code text are those of the markdown file.",
 }
+
+
+LEXGEN_CONTRACTS = "{repo}/internal/lexer/gen/golang/zz_contracts_verif.go"
+SCAN_ALPHA = " a1\n\t\r?\"/-".encode().hex() + "c3a9"
+
+
+def scan_bounded(prop, carriers=("lexonly", "recover")):
+    out = []
+    for c in carriers:
+        out.append({
+            "name": "SCAN-%s-%s" % (prop, c), "stands_in_for": ["lexer.(*Lexer).Scan", "lexer.(*Lexer).Reset", "lexer.NewLexer"],
+            "gen_dir": "{gen}/" + c, "copy": {"harness/scan/verif_scan_test.go": "lexer/verif_scan_test.go"},
+            "pkg": "./lexer", "run": "TestVerifScan",
+            "env": {"VERIF_SCAN": {"quick": "enum:4:" + SCAN_ALPHA, "thorough": "enum:6:" + SCAN_ALPHA}, "VERIF_SCAN_PROP": prop.lower()},
+            "replay_env": "VERIF_SCAN",
+        })
+    return out
+
+
+def extra_parametric_lexer(run):
+    import expand
+    plain = {k: v for k, v in run.carriers.items() if not k.endswith("_dbg")}
+    diffs = expand.parametricity(plain, "lexer/lexer.go")
+    v = [{"id": "parametricity:lexer/lexer.go", "what": "generated lexer functions differ between carriers: %s" % diffs, "input": None}] if diffs else []
+    return {"name": "parametricity(lexer/lexer.go)", "cases": len(plain), "violations": v,
+            "note": "Scan/Reset/NewLexer are textually identical across carrier grammars and flag sets (they differ only in NumStates/NumSymbols and the tables)"}
+
+
+SCAN_ASSUME = [
+    "WF_lex: the emitted ActTab has an ignore name exactly for the states whose Accept is -1, and every transition function returns -1 or a state number (what getActTab/transTabSrc emit; checked on emitted tables by the C01 bounded sweep)",
+    "utf8.DecodeRune: trusted contract (contracts/stdlib.go)",
+    "ghost axioms of Scan (Bnd/Line/Col recurrences along the chain of rune boundaries) are recursive definitions, hence conservative",
+    "the contract is proved on the expansion of two carrier grammars (concrete NumStates), and the run-time functions are checked to be textually identical across all carriers",
+]
+
+PROPS["C08"] = {
+    "level": "proof",
+    "prepare": prepare_expand,
+    "govc": [{"dir": "{gen}/" + c, "pkgs": ["./lexer"], "contracts": [STDLIB, LEXGEN_CONTRACTS], "prop": "C08"} for c in ("lexonly", "recover")],
+    "bounded": scan_bounded("C08"),
+    "extra": [extra_parametric_lexer],
+    "trusted_base": COMMON_TRUSTED + ["text/template expansion (the expanded lexer package is what is verified)"],
+    "assumptions": SCAN_ASSUME,
+    "explanation": "Scan is proved, for arbitrary tables satisfying WF_lex and arbitrary byte strings, to keep the cursor invariant (line/column equal the position recurrence at the cursor offset), to report the start offset/line/column of the lexeme, to return as literal exactly the bytes between start and the new cursor, to make progress and to return EOF for ever once exhausted; consecutive calls therefore tile the input. The bounded run compares the real lexer of the carriers with an independent oracle on all short inputs.",
+}
+
+PROPS["C16"] = {
+    "level": "proof",
+    "prepare": prepare_expand,
+    "govc": [{"dir": "{gen}/" + c, "pkgs": ["./lexer"], "contracts": [STDLIB, LEXGEN_CONTRACTS], "prop": "C16"} for c in ("lexonly", "recover")],
+    "bounded": scan_bounded("C16"),
+    "extra": [extra_parametric_lexer],
+    "trusted_base": COMMON_TRUSTED + ["text/template expansion (the expanded packages are what is verified)"],
+    "assumptions": SCAN_ASSUME,
+    "explanation": "Lexer.Reset is proved to re-establish exactly the state NewLexer creates (pos, line, column); with the deterministic Scan contract the token sequences coincide.",
+}
